@@ -3,7 +3,7 @@
    Only ExtrOcamlBasic is used: nat, N, Z, positive stay the extracted inductives. *)
 From Coq Require Import List NArith ZArith Extraction ExtrOcamlBasic.
 From LMBase Require Import Res ListX IEEE.
-From LMIo Require Import IoBase IoNom IoJaspar IoUniprobe IoPrint.
+From LMIo Require Import IoBase IoNom IoJaspar IoUniprobe IoPrint IoPrintU IoRoundtripU.
 
 Definition n_matrix_of := @matrix_of.
 Definition z_of_N := Z.of_N.
@@ -15,7 +15,7 @@ Extraction "io_model.ml"
   j_read_buggy j_new j_next
   Dna Protein
   print_jaspar print_jaspar16 print_uniprobe print_file
-  wf_jaspar wf_jaspar16 wf_prefix wf_suffix
+  wf_jaspar wf_jaspar16 wf_prefix wf_suffix wf_uniprobe wf_blank_prefix
   dec_value record_of matrix_of
   outcome_eqb outcomes_eqb check_c14 check_c15 no_panic stop_prefix
   N.eqb Z.eqb F32.of_bits F32.to_bits F32.zero.
